@@ -169,6 +169,7 @@ func (c *Ctx) InstallAxioms() error {
 				err = fmt.Errorf("axiom %s depends on program state", ax.Name)
 				return
 			}
+			g = withQid(g, "ax-"+ax.Name)
 			text := "(assert " + g + ") ; axiom " + ax.Name
 			c.reg.axioms = append(c.reg.axioms, text)
 			c.reg.axiomPkg[text] = ax.Pkg
@@ -178,4 +179,37 @@ func (c *Ctx) InstallAxioms() error {
 		}
 	}
 	return nil
+}
+
+
+// withQid names the outermost quantifier of a formula (for solver profiles).
+func withQid(g, name string) string {
+	if !strings.HasPrefix(g, "(forall (") {
+		return g
+	}
+	// find the end of the binder list
+	depth := 0
+	i := len("(forall ")
+	for ; i < len(g); i++ {
+		if g[i] == '(' {
+			depth++
+		} else if g[i] == ')' {
+			depth--
+			if depth == 0 {
+				i++
+				break
+			}
+		}
+	}
+	body := strings.TrimSpace(g[i : len(g)-1])
+	name = strings.Map(func(r rune) rune {
+		if r == '|' || r == '\\' {
+			return '_'
+		}
+		return r
+	}, name)
+	if strings.HasPrefix(body, "(! ") && strings.HasSuffix(body, ")") {
+		return g[:i] + " " + body[:len(body)-1] + " :qid |" + name + "|))"
+	}
+	return g[:i] + " (! " + body + " :qid |" + name + "|))"
 }
